@@ -233,6 +233,13 @@ fn child_body(path: &str, i: usize, n: usize, init_fault: bool, second_fd: bool,
         Ok(Err(e)) => say(&format!("I err {}", e.replace('\n', " "))),
         Err(p) => say(&format!("I err panicked while using the database: {}", p.replace('\n', " "))),
     }
+    // the holder runs the built-in consistency check on its open handle (a routine maintenance
+    // call): whatever it does internally must not let anybody else in
+    match real::guarded(|| db.check()) {
+        Ok(Ok(())) => {}
+        Ok(Err(e)) => say(&format!("I err check() on the open handle: {:?}", e)),
+        Err(p) => say(&format!("I err check() panicked: {}", p.replace('\n', " "))),
+    }
     say("P holding");
     wait_go();
     if second_fd {
